@@ -256,6 +256,36 @@ func init() {
 								}
 							}
 						}
+						// files of several MiB (hundreds of buffers; in-memory files grow through many reallocations): the
+						// unfailed run, and faults at a sample of the consultations (the first and last ones, others spread)
+						large := []int{3<<20 + 1}
+						if !c.Quick() {
+							large = []int{1<<20 + 1, 3<<20 + 1, 8<<20 + 12345}
+						}
+						for li, size := range large {
+							caseNo++
+							if caseNo%c.NShards != c.Shard {
+								continue
+							}
+							mode := modes[(li+caseNo+int(c.Seed))%len(modes)]
+							p := c16Run(c, sk, dk, fnName, size, mode, -1, caseNo)
+							if p == nil {
+								continue
+							}
+							c.Rep.Count("scenarios", 1)
+							c.Rep.Count("large_file_scenarios", 1)
+							n := len(p.seq)
+							picks := map[int]bool{0: true, 1: true, 2: true, n - 1: true, n - 2: true, n - 3: true}
+							for j := 1; j <= c.Pick(4, 18); j++ {
+								picks[j*n/(c.Pick(4, 18)+1)] = true
+							}
+							for k := 0; k < n; k++ {
+								if picks[k] {
+									c16Run(c, sk, dk, fnName, size, mode, k, caseNo)
+									c.Rep.Count("faults_injected", 1)
+								}
+							}
+						}
 					}
 				}
 			}
